@@ -123,6 +123,18 @@ CHECKS = {
               "the periodic continuity from both sides of the seam, split(seam) then make_periodic restores knots and control points, lower_periodic to every level keeps the map."),
         note=TB + " C08: known findings: small periodic bases (fewer than order+continuity functions) and the control points after open/close for continuity >= 1 with non-uniform seam knots.",
         design='DESIGN.md section 8, C08'),
+    'C10': dict(
+        engine='objdiff',
+        technique='Coq proof (invariant by induction over an operation language; constructor acceptance iff) + structural predicate evaluated on the implementation after every step of random operation histories, cross-checked with the extracted executable predicate',
+        text=("Theorems in Properties/C10.v: shape consistency (one basis per direction, |control net| = product of function counts, dim(+1) components per point, no empty direction) is preserved by "
+              "every step of the modelled operation language (insert, reverse, swap, reparam, translate, scale, project, set_dimension, force_rational) and hence by every history of any length; "
+              "the basis constructor accepts exactly the well-formed inputs and otherwise raises ValueError. Correspondence/L2: histories of up to 8 (12) public operations drawn from 22 kinds "
+              "(incl. refine, raise/lower_order, split, make/lower_periodic, rotate, mirror, section, clone, infix operators, derivative splines, make_splines_identical): after each step the "
+              "statement's predicate, accessor consistency, first-index-fastest flat indexing, clone, re-construction from own parts and evaluation on the whole domain are checked on the "
+              "implementation, and the extracted wf predicate must agree on the snapshot; malformed constructor stream against the constructor model."),
+        note=TB + " C10: histories stay in the regime where the periodic algorithms are defined (>= order+continuity functions) and avoid order elevation of objects with jump knots (C04/C05 findings). "
+                  "The constructor's periodic test ignores the last ghost knot (noted in DESIGN.md section 10, not a violation of the statement as worded).",
+        design='DESIGN.md section 8, C10'),
 }
 
 PENDING_REASON = "not claimed in this revision: model/theorems for this property are still being built (see DESIGN.md section 8 for the plan)"
